@@ -71,5 +71,206 @@ def attribute_crash(vh, prop, tier, seed, crash, nshards, outdir):
     return None
 
 
+def run_one(binary, prop, tier, seed, shard, nshards, max_cases, out, env_extra=None, start=0, timeout=1800, pre=None):
+    e = dict(os.environ)
+    if env_extra:
+        e.update(env_extra)
+    cmd = (pre or []) + [binary, "run", "--prop", prop, "--tier", tier, "--seed", str(seed), "--shard", str(shard), "--nshards", str(nshards), "--out", out, "--start", str(start), "--max-cases", str(max_cases), "--budget-secs", str(timeout)]
+    try:
+        r = subprocess.run(cmd, env=e, stdout=subprocess.PIPE, stderr=subprocess.PIPE, text=True, timeout=timeout + 120)
+    except subprocess.TimeoutExpired:
+        return None, "timeout", None
+    res = None
+    if os.path.exists(out):
+        try:
+            res = json.load(open(out))
+        except Exception:
+            res = None
+    return r.returncode, r.stderr, res
+
+
+def parallel(jobs, nproc=16):
+    """jobs: list of zero-arg callables; run in a thread pool (each spawns a subprocess)."""
+    from concurrent.futures import ThreadPoolExecutor
+    with ThreadPoolExecutor(max_workers=nproc) as ex:
+        return list(ex.map(lambda f: f(), jobs))
+
+
+def cargo(args, env, target_sub, target, extra_env=None, cwd=None, timeout=3600):
+    e = dict(env)
+    e["CARGO_TARGET_DIR"] = os.path.join(target, target_sub)
+    if extra_env:
+        e.update(extra_env)
+    return subprocess.run(["cargo"] + args, env=e, cwd=cwd, stdout=subprocess.PIPE, stderr=subprocess.STDOUT, text=True, timeout=timeout)
+
+
+HARNESS = "/verif/harness"
+
+
+def first_repo_frame(stderr):
+    for line in stderr.splitlines():
+        if "/repo/src/" in line:
+            i = line.index("/repo/src/")
+            return line[i + 6:].split(":")[0]
+    return "?"
+
+
+def sanitizer_sweep(name, binary, prop, tier, seed, outdir, nshards, per_shard, env_extra, marker, pre=None, timeout=900):
+    """Run the property's own workload under a sanitizer build. Returns (coverage dict, violations)."""
+    outs = []
+
+    def job(s):
+        def f():
+            out = os.path.join(outdir, f"{name}{s}.json")
+            return (s,) + run_one(binary, prop, tier, seed + 1000, s, nshards, per_shard, out, env_extra, timeout=timeout, pre=pre)
+        return f
+
+    res = parallel([job(s) for s in range(nshards)], nshards)
+    cov = {f"{name}_evaluations": 0, f"{name}_processes": nshards, f"{name}_reports": 0}
+    viols = []
+    for s, rc, err, r in res:
+        if r:
+            cov[f"{name}_evaluations"] += r.get("evaluations", 0)
+            for v in r.get("violations", []):
+                viols.append({"sig": v["sig"] + f"|under-{name}", "detail": v["detail"], "case": v["case"], "count": v["count"]})
+        if err and marker in (err or ""):
+            cov[f"{name}_reports"] += 1
+            frame = first_repo_frame(err)
+            viols.append({"sig": f"{prop}|{name}-report|{frame}", "detail": f"{name} reported an error in shard {s} (seed {seed + 1000}): " + err[-1500:], "case": {"Enum": {"what": f"{name} shard {s} of {nshards}, seed {seed + 1000}, {per_shard} cases", "lo": 0, "hi": per_shard}}, "count": 1})
+        elif rc not in (0, None) and not r:
+            cov.setdefault(f"{name}_abnormal_exits", 0)
+            cov[f"{name}_abnormal_exits"] += 1
+    return cov, viols
+
+
 def post(prop, tier, seed, env, target, outdir, vh):
-    return {}, []
+    cov, viols = {}, []
+    thorough = tier == "thorough"
+    if prop == "C17":
+        # (e) the Send/Sync obligation: must type-check for every writer type
+        r = cargo(["check", "--offline", "--manifest-path", "/verif/sendprobe/Cargo.toml"], env, "sendprobe", target)
+        cov["send_probe_typechecks"] = r.returncode == 0
+        if r.returncode != 0:
+            viols.append({"sig": "C17|send-probe|Muxer<W> is not Send/Sync for every W: Send/Sync", "detail": r.stdout[-1500:], "case": {"Enum": {"what": "cargo check /verif/sendprobe", "lo": 0, "hi": 1}}, "count": 1})
+        # (c) wall clock: same workload with the realtime clock skewed by ten years
+        shim = os.path.join(target, "clockshim.so")
+        cc = subprocess.run(["cc", "-shared", "-fPIC", "-O2", "-o", shim, "/verif/clockshim/clockshim.c", "-ldl"], stdout=subprocess.PIPE, stderr=subprocess.STDOUT, text=True)
+        if cc.returncode == 0:
+            n = 200 if thorough else 60
+            a = os.path.join(outdir, "clock_a.json")
+            b = os.path.join(outdir, "clock_b.json")
+            cnt = os.path.join(outdir, "clock_reads.txt")
+            rc1, e1, r1 = run_one(vh, prop, tier, seed, 2, 4, n, a)
+            rc2, e2, r2 = run_one(vh, prop, tier, seed, 2, 4, n, b, {"LD_PRELOAD": shim, "CLOCKSHIM_SKEW": str(10 * 365 * 86400), "CLOCKSHIM_OUT": cnt})
+            if r1 and r2:
+                d1, d2 = r1["counters"].get("digest_xor"), r2["counters"].get("digest_xor")
+                cov["clock_skew_runs_compared"] = r1["cases"]
+                cov["clock_skew_digest_equal"] = d1 == d2
+                try:
+                    cov["realtime_clock_reads_in_skewed_process"] = int(open(cnt).read().strip())
+                except Exception:
+                    pass
+                if d1 != d2 or [v["sig"] for v in r2["violations"]] != [v["sig"] for v in r1["violations"]]:
+                    viols.append({"sig": "C17|wall-clock-dependence", "detail": f"the same {n} cases give digest {d1} normally and {d2} with the realtime clock skewed by 10 years", "case": {"Enum": {"what": "clock-skew comparison (shard 2 of 4)", "lo": 0, "hi": n}}, "count": 1})
+            else:
+                cov["clock_skew_inconclusive"] = True
+        else:
+            cov["clock_shim_build_failed"] = cc.stdout[-300:]
+        if thorough:
+            # ThreadSanitizer build of the harness + library (needs -Zbuild-std)
+            r = cargo(["+nightly", "build", "--offline", "-Zbuild-std", "--target", "x86_64-unknown-linux-gnu", "--manifest-path", os.path.join(HARNESS, "Cargo.toml")], env, "tsan", target, {"RUSTFLAGS": "-Zsanitizer=thread"})
+            if r.returncode == 0:
+                tb = os.path.join(target, "tsan", "x86_64-unknown-linux-gnu", "debug", "vharness")
+                c, v = sanitizer_sweep("tsan", tb, prop, tier, seed, outdir, 8, 60, {"TSAN_OPTIONS": "halt_on_error=1 exitcode=66", "VH_THREADS_ONLY": "1"}, "ThreadSanitizer")
+                cov.update(c)
+                viols.extend(v)
+            else:
+                cov["tsan_build_failed"] = r.stdout[-400:]
+            # Miri: data-race detection + schedule exploration on small thread cases
+            c, v = miri_sweep(prop, tier, seed, env, target, outdir, nproc=16, cases=2, seeds="0..3")
+            cov.update(c)
+            viols.extend(v)
+    if prop == "C12" and thorough:
+        r = cargo(["+nightly", "build", "--offline", "--target", "x86_64-unknown-linux-gnu", "--manifest-path", os.path.join(HARNESS, "Cargo.toml")], env, "asan", target, {"RUSTFLAGS": "-Zsanitizer=address -Cforce-frame-pointers=yes"})
+        if r.returncode == 0:
+            ab = os.path.join(target, "asan", "x86_64-unknown-linux-gnu", "debug", "vharness")
+            c, v = sanitizer_sweep("asan", ab, prop, tier, seed, outdir, 16, 20000, {"ASAN_OPTIONS": "detect_leaks=0:halt_on_error=1:exitcode=67"}, "AddressSanitizer")
+            cov.update(c)
+            viols.extend(v)
+        else:
+            cov["asan_build_failed"] = r.stdout[-400:]
+        # release build: overflow wraps instead of panicking; panics that remain are still violations
+        r = cargo(["build", "--offline", "--release", "--manifest-path", os.path.join(HARNESS, "Cargo.toml")], env, "", target)
+        if r.returncode == 0:
+            rb = os.path.join(target, "release", "vharness")
+            c, v = sanitizer_sweep("release", rb, prop, tier, seed, outdir, 16, 20000, {}, "\x00never")
+            cov.update(c)
+            viols.extend(v)
+        else:
+            cov["release_build_failed"] = r.stdout[-400:]
+        c, v = miri_sweep(prop, tier, seed, env, target, outdir, nproc=16, cases=25, seeds=None)
+        cov.update(c)
+        viols.extend(v)
+    if prop == "C13" and thorough:
+        c, v = miri_sweep(prop, tier, seed, env, target, outdir, nproc=8, cases=1, seeds=None)
+        cov.update(c)
+        viols.extend(v)
+    # write replay files for the extra violations
+    outv = []
+    for v in viols:
+        import hashlib
+        os.makedirs("/verif/replays", exist_ok=True)
+        h = hashlib.sha1(v["sig"].encode()).hexdigest()[:12]
+        path = f"/verif/replays/{prop}-{h}.json"
+        json.dump({"prop": prop, "sig": v["sig"], "detail": v["detail"], "case": v["case"]}, open(path, "w"))
+        outv.append({"sig": v["sig"], "detail": v["detail"], "replay": path})
+    return cov, outv
+
+
+def miri_sweep(prop, tier, seed, env, target, outdir, nproc, cases, seeds):
+    """Run small slices of the property's workload under Miri (UB + data-race interpreter)."""
+    e = dict(env)
+    e["CARGO_TARGET_DIR"] = os.path.join(target, "miri")
+    flags = "-Zmiri-disable-isolation -Zmiri-ignore-leaks"
+    if seeds:
+        flags += f" -Zmiri-many-seeds={seeds}"
+    e["MIRIFLAGS"] = flags
+    e["VH_SMALL"] = "1"
+    # build once (cargo miri run with --max-cases 0)
+    b = subprocess.run(["cargo", "+nightly", "miri", "run", "--offline", "--manifest-path", os.path.join(HARNESS, "Cargo.toml"), "--", "run", "--prop", prop, "--max-cases", "0", "--out", os.path.join(outdir, "miri_build.json")], env=e, stdout=subprocess.PIPE, stderr=subprocess.STDOUT, text=True, timeout=1800)
+    cov = {"miri_processes": nproc, "miri_evaluations": 0, "miri_reports": 0}
+    viols = []
+    if b.returncode != 0 and "Undefined Behavior" not in b.stdout:
+        cov["miri_build_failed"] = b.stdout[-400:]
+        return cov, viols
+
+    def job(s):
+        def f():
+            out = os.path.join(outdir, f"miri{s}.json")
+            cmd = ["cargo", "+nightly", "miri", "run", "--offline", "--manifest-path", os.path.join(HARNESS, "Cargo.toml"), "--", "run", "--prop", prop, "--tier", tier, "--seed", str(seed + 2000), "--shard", str(s), "--nshards", str(nproc), "--max-cases", str(cases), "--budget-secs", "400", "--stall-secs", "100000", "--out", out]
+            try:
+                r = subprocess.run(cmd, env=e, stdout=subprocess.PIPE, stderr=subprocess.PIPE, text=True, timeout=1500)
+                err = r.stderr
+            except subprocess.TimeoutExpired:
+                return s, "timeout", None
+            res = None
+            if os.path.exists(out):
+                try:
+                    res = json.load(open(out))
+                except Exception:
+                    res = None
+            return s, err, res
+        return f
+
+    for s, err, r in parallel([job(s) for s in range(nproc)], nproc):
+        if r:
+            cov["miri_evaluations"] += r.get("evaluations", 0)
+            for v in r.get("violations", []):
+                viols.append({"sig": v["sig"] + "|under-miri", "detail": v["detail"], "case": v["case"], "count": v["count"]})
+        if err and ("Undefined Behavior" in err or "Data race" in err or "data race" in err):
+            cov["miri_reports"] += 1
+            viols.append({"sig": f"{prop}|miri-report|{first_repo_frame(err)}", "detail": "Miri reported: " + err[-1500:], "case": {"Enum": {"what": f"miri shard {s} of {nproc}, seed {seed + 2000}, {cases} cases", "lo": 0, "hi": cases}}, "count": 1})
+        elif err == "timeout":
+            cov.setdefault("miri_timeouts", 0)
+            cov["miri_timeouts"] += 1
+    return cov, viols
